@@ -31,25 +31,50 @@ structure PastOK (signed : List VoteSet.Vote) (e : Int × List RoundVotes) : Pro
 
 def PastInv (n : Node) : Prop := ∀ e ∈ n.past, e.1 < n.height ∧ PastOK n.signed e
 
-/-- a step inside one height that leaves `past` alone and signs only for that height -/
+def Fresh (V : List VoteSet.Validator) (h : Int) (rv : RoundVotes) : Prop :=
+  ∃ r, rv = ⟨r, VoteSet.new h r 1 V, VoteSet.new h r 2 V⟩
+
+/-- a step inside one height that leaves `past` alone, signs only for that height, queues only
+    votes it has signed, and adds only empty vote sets -/
 structure Fr (n n' : Node) : Prop where
   h : n'.height = n.height
   past : n'.past = n.past
   sg : ∃ extra, n'.signed = n.signed ++ extra ∧ ∀ m ∈ extra, m.height = n.height
+  qv : ∀ v ok, Msg.vote v ok ∈ n'.queue → Msg.vote v ok ∈ n.queue ∨ (v ∈ n'.signed ∧ ok = true)
+  rd : ∀ rv ∈ n'.rounds, rv ∈ n.rounds ∨ Fresh (vsVals n.vals) n.height rv
+  vv : vsVals n'.vals = vsVals n.vals
+  v0 : n'.vals0 = n.vals0
 
-theorem Fr.rfl' (n : Node) : Fr n n := ⟨rfl, rfl, [], by simp, by simp⟩
+theorem Fr.rfl' (n : Node) : Fr n n :=
+  ⟨rfl, rfl, ⟨[], by simp, by simp⟩, fun _ _ h => Or.inl h, fun _ h => Or.inl h, rfl, rfl⟩
 
-theorem Fr.of_eq {n n' : Node} (h : n'.height = n.height) (p : n'.past = n.past) (s : n'.signed = n.signed) : Fr n n' :=
-  ⟨h, p, [], by simp [s], by simp⟩
+theorem Fr.of_eq {n n' : Node} (h : n'.height = n.height) (p : n'.past = n.past) (s : n'.signed = n.signed)
+    (q : n'.queue = n.queue) (r : n'.rounds = n.rounds) (v : n'.vals = n.vals) (v0 : n'.vals0 = n.vals0) : Fr n n' :=
+  ⟨h, p, ⟨[], by simp [s], by simp⟩, fun _ _ hm => Or.inl (by rw [← q]; exact hm), fun _ hm => Or.inl (by rw [← r]; exact hm), by rw [v], v0⟩
+
+theorem Fr.signed_sub {a b : Node} (x : Fr a b) : ∀ v ∈ a.signed, v ∈ b.signed := by
+  obtain ⟨e, h, _⟩ := x.sg
+  intro v hv; rw [h]; exact List.mem_append_left _ hv
 
 theorem Fr.trans {a b c : Node} (x : Fr a b) (y : Fr b c) : Fr a c := by
   obtain ⟨e1, h1, g1⟩ := x.sg
   obtain ⟨e2, h2, g2⟩ := y.sg
-  refine ⟨y.h.trans x.h, y.past.trans x.past, e1 ++ e2, by rw [h2, h1, List.append_assoc], ?_⟩
-  intro m hm
-  rcases List.mem_append.mp hm with hm | hm
-  · exact g1 m hm
-  · rw [g2 m hm, x.h]
+  refine ⟨y.h.trans x.h, y.past.trans x.past, ⟨e1 ++ e2, by rw [h2, h1, List.append_assoc], ?_⟩, ?_, ?_,
+    y.vv.trans x.vv, y.v0.trans x.v0⟩
+  · intro m hm
+    rcases List.mem_append.mp hm with hm | hm
+    · exact g1 m hm
+    · rw [g2 m hm, x.h]
+  · intro v ok hm
+    rcases y.qv v ok hm with hm | hm
+    · rcases x.qv v ok hm with hm | hm
+      · exact Or.inl hm
+      · exact Or.inr ⟨y.signed_sub _ hm.1, hm.2⟩
+    · exact Or.inr hm
+  · intro rv hm
+    rcases y.rd rv hm with hm | hm
+    · exact x.rd rv hm
+    · rw [x.vv, x.h] at hm; exact Or.inr hm
 
 theorem PastOK.append {signed extra : List VoteSet.Vote} {e : Int × List RoundVotes} (p : PastOK signed e)
     (hx : ∀ m ∈ extra, m.height ≠ e.1) : PastOK (signed ++ extra) e := by
@@ -80,20 +105,79 @@ theorem PastInv.fr {n n' : Node} (p : PastInv n) (f : Fr n n') : PastInv n' := b
   rw [hs]
   exact ok.append (fun m hm => by rw [hx m hm]; omega)
 
+/-! ### `vsVals` (addresses and powers) does not depend on the accums -/
+
+theorem map_modify_eq {α β : Type} (g : α → β) (f : α → α) (hg : ∀ x, g (f x) = g x) :
+    ∀ (l : List α) (i : Nat), (l.modify i f).map g = l.map g := by
+  intro l
+  induction l with
+  | nil => intro i; simp
+  | cons a t ih =>
+    intro i
+    cases i with
+    | zero => simp [hg]
+    | succ k => simp [ih k]
+
+theorem vsVals_incrOnce (vs : ValSet.ValSet) : vsVals (ValSet.incrOnce vs) = vsVals vs := by
+  have htv : (ValSet.totalVotingPower vs).1.vals = vs.vals := by
+    unfold ValSet.totalVotingPower; split <;> rfl
+  unfold vsVals ValSet.incrOnce
+  generalize ValSet.totalVotingPower vs = tv at htv ⊢
+  obtain ⟨vs1, t⟩ := tv
+  dsimp only at htv ⊢
+  split
+  · rename_i hnil
+    have : vs1.vals = [] := by simpa using hnil
+    simp only
+    rw [← htv, this]; rfl
+  · simp only
+    have := map_modify_eq (fun v : ValSet.Val => (⟨v.addr, v.power⟩ : VoteSet.Validator))
+      (fun v : ValSet.Val => { v with accum := v.accum - t }) (fun x => rfl)
+      (List.map (fun v : ValSet.Val => { v with accum := v.accum + v.power }) vs1.vals)
+    rw [this, List.map_map, ← htv]
+    rfl
+
+theorem vsVals_iter (k : Nat) : ∀ vs : ValSet.ValSet, vsVals (ValSet.iter ValSet.incrOnce k vs) = vsVals vs := by
+  induction k with
+  | zero => intro vs; rfl
+  | succ k ih => intro vs; rw [ValSet.iter, ih, vsVals_incrOnce]
+
+theorem vsVals_incrementAccum (vs : ValSet.ValSet) (k : Nat) :
+    vsVals (ValSet.incrementAccum ValSet.repaired vs k) = vsVals vs := by
+  unfold ValSet.incrementAccum
+  split
+  · rfl
+  · rw [if_pos (by rfl)]; exact vsVals_iter k vs
+
 /-! ### the frame lemmas, one per transition function that cannot end the height -/
 
-theorem fr_emit (n : Node) (e : Emit) : Fr n (emit n e) := Fr.of_eq rfl rfl rfl
+theorem fr_emit (n : Node) (e : Emit) : Fr n (emit n e) := Fr.of_eq rfl rfl rfl rfl rfl rfl rfl
 
 theorem fr_setRound (n : Node) (r : Int) : Fr n (setRound n r) := by
-  unfold setRound; split <;> exact Fr.of_eq rfl rfl rfl
+  unfold setRound
+  split
+  · exact Fr.of_eq rfl rfl rfl rfl rfl rfl rfl
+  · refine ⟨rfl, rfl, ⟨[], by simp, by simp⟩, fun _ _ h => Or.inl h, ?_, rfl, rfl⟩
+    intro rv hm
+    rcases List.mem_append.mp hm with hm | hm
+    · exact Or.inl hm
+    · obtain ⟨q, _, hq⟩ := List.mem_map.mp hm
+      exact Or.inr ⟨q, hq.symm⟩
 
 theorem fr_signAddVote (n : Node) (t : Nat) (bid : VoteSet.BlockID) : Fr n (signAddVote n t bid) := by
   unfold signAddVote
   split
   · dsimp only
     split
-    · exact ⟨rfl, rfl, [_], rfl, by simp⟩
-    · exact Fr.of_eq rfl rfl rfl
+    · refine ⟨rfl, rfl, ⟨[_], rfl, by simp⟩, ?_, fun _ h => Or.inl h, rfl, rfl⟩
+      intro v ok hm
+      rcases List.mem_append.mp hm with hm | hm
+      · exact Or.inl hm
+      · simp only [List.mem_singleton, Msg.vote.injEq] at hm
+        obtain ⟨hv, hok⟩ := hm
+        subst hv
+        exact Or.inr ⟨by simp, hok⟩
+    · exact Fr.of_eq rfl rfl rfl rfl rfl rfl rfl
   · exact Fr.rfl' n
 
 theorem fr_doPrevote (n : Node) : Fr n (doPrevote n) := by
@@ -108,7 +192,7 @@ theorem fr_enterPrevote (n : Node) (h r : Int) : Fr n (enterPrevote n h r) := by
   unfold enterPrevote
   split
   · exact Fr.rfl' n
-  · exact (fr_doPrevote n).trans (Fr.of_eq rfl rfl rfl)
+  · exact (fr_doPrevote n).trans (Fr.of_eq rfl rfl rfl rfl rfl rfl rfl)
 
 theorem fr_enterPrevoteWait (n : Node) (h r : Int) : Fr n (enterPrevoteWait n h r) := by
   unfold enterPrevoteWait
@@ -116,7 +200,7 @@ theorem fr_enterPrevoteWait (n : Node) (h r : Int) : Fr n (enterPrevoteWait n h 
   · exact Fr.rfl' n
   · split
     · exact fr_emit _ _
-    · exact Fr.of_eq rfl rfl rfl
+    · exact Fr.of_eq rfl rfl rfl rfl rfl rfl rfl
 
 theorem fr_enterPrecommitWait (n : Node) (h r : Int) : Fr n (enterPrecommitWait n h r) := by
   unfold enterPrecommitWait
@@ -124,17 +208,27 @@ theorem fr_enterPrecommitWait (n : Node) (h r : Int) : Fr n (enterPrecommitWait 
   · exact Fr.rfl' n
   · split
     · exact fr_emit _ _
-    · exact Fr.of_eq rfl rfl rfl
+    · exact Fr.of_eq rfl rfl rfl rfl rfl rfl rfl
+
+/-- queueing a proposal and its parts adds no vote to the queue -/
+theorem Fr.of_queue {n n' : Node} (h : n'.height = n.height) (p : n'.past = n.past) (s : n'.signed = n.signed)
+    (q : ∀ v ok, Msg.vote v ok ∈ n'.queue → Msg.vote v ok ∈ n.queue) (r : n'.rounds = n.rounds)
+    (v : n'.vals = n.vals) (v0 : n'.vals0 = n.vals0) : Fr n n' :=
+  ⟨h, p, ⟨[], by simp [s], by simp⟩, fun a b hm => Or.inl (q a b hm), fun _ hm => Or.inl (by rw [← r]; exact hm), by rw [v], v0⟩
 
 theorem fr_decideProposal (n : Node) (h r : Int) : Fr n (decideProposal n h r) := by
   unfold decideProposal
   extract_lets own block pol p res m
-  have hm : Fr n m := by unfold m; split <;> exact Fr.of_eq rfl rfl rfl
+  have hm : Fr n m := by unfold m; split <;> exact Fr.of_eq rfl rfl rfl rfl rfl rfl rfl
   split
   · split
-    · exact hm.trans (Fr.of_eq rfl rfl rfl)
-    · exact Fr.of_eq rfl rfl rfl
-  · exact Fr.of_eq rfl rfl rfl
+    · refine hm.trans (Fr.of_queue rfl rfl rfl ?_ rfl rfl rfl)
+      intro v ok hq
+      rcases List.mem_append.mp hq with hq | hq
+      · exact hq
+      · simp at hq
+    · exact Fr.of_eq rfl rfl rfl rfl rfl rfl rfl
+  · exact Fr.of_eq rfl rfl rfl rfl rfl rfl rfl
 
 theorem fr_enterPropose (n : Node) (h r : Int) : Fr n (enterPropose n h r) := by
   unfold enterPropose
@@ -149,7 +243,7 @@ theorem fr_enterPropose (n : Node) (h r : Int) : Fr n (enterPropose n h r) := by
         · exact fr_decideProposal _ _ _
         · exact Fr.rfl' _
       · exact Fr.rfl' _
-    have f3 : Fr n2 n3 := Fr.of_eq rfl rfl rfl
+    have f3 : Fr n2 n3 := Fr.of_eq rfl rfl rfl rfl rfl rfl rfl
     split
     · exact ((f1.trans f2).trans f3).trans (fr_enterPrevote _ _ _)
     · exact (f1.trans f2).trans f3
@@ -159,19 +253,25 @@ theorem fr_enterNewRound (n : Node) (h r : Int) : Fr n (enterNewRound n h r) := 
   split
   · exact Fr.rfl' n
   · extract_lets vals n1 n2 n3
-    have f1 : Fr n n1 := Fr.of_eq rfl rfl rfl
-    have f2 : Fr n1 n2 := by unfold n2; split <;> exact Fr.of_eq rfl rfl rfl
+    have f1 : Fr n n1 := by
+      refine ⟨rfl, rfl, ⟨[], by simp [n1], by simp⟩, fun _ _ hm => Or.inl hm, fun _ hm => Or.inl hm, ?_, rfl⟩
+      show vsVals vals = vsVals n.vals
+      unfold vals
+      split
+      · exact vsVals_incrementAccum _ _
+      · rfl
+    have f2 : Fr n1 n2 := by unfold n2; split <;> exact Fr.of_eq rfl rfl rfl rfl rfl rfl rfl
     have f3 : Fr n2 n3 := fr_setRound _ _
     exact ((f1.trans f2).trans f3).trans (fr_enterPropose _ _ _)
 
-theorem fr_unlock (n : Node) : Fr n (unlock n) := Fr.of_eq rfl rfl rfl
+theorem fr_unlock (n : Node) : Fr n (unlock n) := Fr.of_eq rfl rfl rfl rfl rfl rfl rfl
 
 theorem fr_enterPrecommit (n : Node) (h r : Int) : Fr n (enterPrecommit n h r) := by
   unfold enterPrecommit
   split
   · exact Fr.rfl' n
   · extract_lets fin
-    have key : ∀ a b : Node, Fr a b → Fr a (fin b) := fun a b f => f.trans (Fr.of_eq rfl rfl rfl)
+    have key : ∀ a b : Node, Fr a b → Fr a (fin b) := fun a b f => f.trans (Fr.of_eq rfl rfl rfl rfl rfl rfl rfl)
     split
     · exact key _ _ (fr_signAddVote _ _ _)
     · split
@@ -182,93 +282,236 @@ theorem fr_enterPrecommit (n : Node) (h r : Int) : Fr n (enterPrecommit n h r) :
           · exact fr_unlock _
           · exact Fr.rfl' _
         · split
-          · exact key _ _ ((Fr.of_eq rfl rfl rfl : Fr n { n with lockedRound := r }).trans (fr_signAddVote _ _ _))
+          · exact key _ _ ((Fr.of_eq rfl rfl rfl rfl rfl rfl rfl : Fr n { n with lockedRound := r }).trans (fr_signAddVote _ _ _))
           · split
             · split
               · exact key _ _ (fr_emit _ _)
-              · exact key _ _ ((Fr.of_eq rfl rfl rfl : Fr n { n with lockedRound := r, lockedBlock := n.proposalBlock }).trans
+              · exact key _ _ ((Fr.of_eq rfl rfl rfl rfl rfl rfl rfl : Fr n { n with lockedRound := r, lockedBlock := n.proposalBlock }).trans
                   (fr_signAddVote _ _ _))
             · extract_lets m1
-              have g2 : Fr n m1 := by unfold m1; split <;> exact Fr.of_eq rfl rfl rfl
+              have g2 : Fr n m1 := by unfold m1; split <;> exact Fr.of_eq rfl rfl rfl rfl rfl rfl rfl
               exact key _ _ (g2.trans (fr_signAddVote _ _ _))
 
 theorem fr_setProposal (n : Node) (p : Proposal) (signer : Nat) (bad : Bool) : Fr n (setProposal n p signer bad) := by
   unfold setProposal
   repeat' split
-  all_goals first | exact Fr.rfl' n | exact Fr.of_eq rfl rfl rfl
+  all_goals first | exact Fr.rfl' n | exact Fr.of_eq rfl rfl rfl rfl rfl rfl rfl
 
-theorem fr_hvsAddVote (n : Node) (v : VoteSet.Vote) (sigok : Bool) (peer : String) :
-    Fr n (hvsAddVote n v sigok peer).1 :=
-  Fr.of_eq (hrs_hvsAddVote n v sigok peer).h (by
-    unfold hvsAddVote
-    split
-    · rfl
-    · split
-      rename_i n' known heq
-      have s : n'.past = n.past := by
+theorem past_hvsAddVote (n : Node) (v : VoteSet.Vote) (sigok : Bool) (peer : String) :
+    (hvsAddVote n v sigok peer).1.past = n.past ∧ (hvsAddVote n v sigok peer).1.queue = n.queue ∧
+    (hvsAddVote n v sigok peer).1.vals = n.vals ∧ (hvsAddVote n v sigok peer).1.vals0 = n.vals0 := by
+  unfold hvsAddVote
+  split
+  · exact ⟨rfl, rfl, rfl, rfl⟩
+  · split
+    rename_i n' known heq
+    have s : n'.past = n.past ∧ n'.queue = n.queue ∧ n'.vals = n.vals ∧ n'.vals0 = n.vals0 := by
+      split at heq
+      · cases heq; exact ⟨rfl, rfl, rfl, rfl⟩
+      · dsimp only at heq
         split at heq
-        · cases heq; rfl
-        · dsimp only at heq
-          split at heq
-          · cases heq; rfl
-          · cases heq; rfl
-      split
+        · cases heq; exact ⟨rfl, rfl, rfl, rfl⟩
+        · cases heq; exact ⟨rfl, rfl, rfl, rfl⟩
+    split
+    · exact s
+    · split
       · exact s
-      · split
-        · exact s
-        · exact s) (signed_hvsAddVote n v sigok peer)
+      · exact s
 
-theorem fr_setPeerMaj23 (n : Node) (height round : Int) (type : Nat) (peer : String) (bid : VoteSet.BlockID) :
-    Fr n (setPeerMaj23 n height round type peer bid) := by
+theorem past_setPeerMaj23 (n : Node) (height round : Int) (type : Nat) (peer : String) (bid : VoteSet.BlockID) :
+    (setPeerMaj23 n height round type peer bid).past = n.past ∧ (setPeerMaj23 n height round type peer bid).queue = n.queue ∧
+    (setPeerMaj23 n height round type peer bid).vals = n.vals ∧ (setPeerMaj23 n height round type peer bid).vals0 = n.vals0 := by
   unfold setPeerMaj23
   split
-  · exact Fr.rfl' n
+  · exact ⟨rfl, rfl, rfl, rfl⟩
   · split
-    · exact Fr.rfl' n
-    · split <;> first | exact Fr.rfl' n | exact Fr.of_eq rfl rfl rfl
+    · exact ⟨rfl, rfl, rfl, rfl⟩
+    · split <;> exact ⟨rfl, rfl, rfl, rfl⟩
 
+/-! ### what the vote sets hold: every stored vote was offered to this node with a verifying signature -/
 
-/-! ### the three run invariants together, through every handler -/
+/-- the vote sets `rs` of height `h` over the validators `V`: each satisfies the vote-set invariant
+    (C15) relative to the history `hist` of votes offered to the node -/
+def SetsOK (V : List VoteSet.Validator) (hist : VoteSet.Hist) (h : Int) (rs : List RoundVotes) : Prop :=
+  ∀ rv ∈ rs, VoteSet.Inv VoteSet.repaired hist rv.prevotes ∧ VoteSet.Inv VoteSet.repaired hist rv.precommits ∧
+    VoteSet.SameParams (VoteSet.new h rv.round 1 V) rv.prevotes ∧ VoteSet.SameParams (VoteSet.new h rv.round 2 V) rv.precommits
 
-structure Full (n : Node) : Prop where
+theorem SetsOK.mono {V : List VoteSet.Validator} {hist : VoteSet.Hist} {h : Int} {rs : List RoundVotes}
+    (x : VoteSet.Hist) (s : SetsOK V hist h rs) : SetsOK V (hist ++ x) h rs := by
+  intro rv hm
+  obtain ⟨a, b, c, d⟩ := s rv hm
+  exact ⟨a.mono x, b.mono x, c, d⟩
+
+theorem setsOK_fresh {V : List VoteSet.Validator} (hist : VoteSet.Hist) (h : Int) (rv : RoundVotes)
+    (pos : ∀ val ∈ V, 0 ≤ val.power) (f : Fresh V h rv) :
+    VoteSet.Inv VoteSet.repaired hist rv.prevotes ∧ VoteSet.Inv VoteSet.repaired hist rv.precommits ∧
+    VoteSet.SameParams (VoteSet.new h rv.round 1 V) rv.prevotes ∧ VoteSet.SameParams (VoteSet.new h rv.round 2 V) rv.precommits := by
+  obtain ⟨r, hr⟩ := f
+  subst hr
+  have a := (VoteSet.inv_new VoteSet.repaired h r 1 V pos).mono hist
+  have b := (VoteSet.inv_new VoteSet.repaired h r 2 V pos).mono hist
+  rw [List.nil_append] at a b
+  exact ⟨a, b, VoteSet.SameParams.refl _, VoteSet.SameParams.refl _⟩
+
+structure VSI (V : List VoteSet.Validator) (n : Node) (hist : VoteSet.Hist) : Prop where
+  pos : ∀ val ∈ V, 0 ≤ val.power
+  vals : vsVals n.vals = V
+  vals0 : vsVals n.vals0 = V
+  cur : SetsOK V hist n.height n.rounds
+  old : ∀ e ∈ n.past, SetsOK V hist e.1 e.2
+
+theorem VSI.mono {V : List VoteSet.Validator} {n : Node} {hist : VoteSet.Hist} (x : VoteSet.Hist) (s : VSI V n hist) :
+    VSI V n (hist ++ x) :=
+  ⟨s.pos, s.vals, s.vals0, s.cur.mono x, fun e he => (s.old e he).mono x⟩
+
+theorem VSI.fr {V : List VoteSet.Validator} {n n' : Node} {hist : VoteSet.Hist} (s : VSI V n hist) (f : Fr n n') :
+    VSI V n' hist := by
+  refine ⟨s.pos, f.vv.trans s.vals, by rw [f.v0]; exact s.vals0, ?_, by rw [f.past]; exact s.old⟩
+  intro rv hm
+  rw [f.h]
+  rcases f.rd rv hm with hm | hm
+  · exact s.cur rv hm
+  · rw [s.vals] at hm
+    exact setsOK_fresh hist _ rv s.pos hm
+
+theorem setsOK_map {V : List VoteSet.Validator} {hist : VoteSet.Hist} {h : Int} {rs : List RoundVotes}
+    (s : SetsOK V hist h rs) (R : Int) (rv' : RoundVotes)
+    (ok : VoteSet.Inv VoteSet.repaired hist rv'.prevotes ∧ VoteSet.Inv VoteSet.repaired hist rv'.precommits ∧
+      VoteSet.SameParams (VoteSet.new h rv'.round 1 V) rv'.prevotes ∧ VoteSet.SameParams (VoteSet.new h rv'.round 2 V) rv'.precommits) :
+    SetsOK V hist h (rs.map (fun x => if x.round = R then rv' else x)) := by
+  intro x hx
+  obtain ⟨y, hy, rfl⟩ := List.mem_map.mp hx
+  split
+  · exact ok
+  · exact s y hy
+
+theorem getRound_mem {n : Node} {r : Int} {rv : RoundVotes} (h : getRound n r = some rv) : rv ∈ n.rounds :=
+  List.mem_of_find?_eq_some h
+
+theorem vsi_hvsAddVote {V : List VoteSet.Validator} {hist : VoteSet.Hist} (n : Node) (v : VoteSet.Vote) (sigok : Bool)
+    (peer : String) (s : VSI V n hist) : VSI V (hvsAddVote n v sigok peer).1 (hist ++ [(v, sigok)]) := by
+  unfold hvsAddVote
+  split
+  · exact s.mono _
+  · split
+    rename_i n' known heq
+    have s' : VSI V n' hist ∧ n'.height = n.height := by
+      split at heq
+      · cases heq; exact ⟨s, rfl⟩
+      · dsimp only at heq
+        split at heq
+        · cases heq
+          refine ⟨⟨s.pos, s.vals, s.vals0, ?_, s.old⟩, rfl⟩
+          intro rv hm
+          rcases List.mem_append.mp hm with hm | hm
+          · exact s.cur rv hm
+          · simp only [List.mem_singleton] at hm
+            subst hm
+            exact setsOK_fresh hist _ _ s.pos ⟨v.round, by rw [newRoundVotes, s.vals]⟩
+        · cases heq; exact ⟨s, rfl⟩
+    obtain ⟨s', hh⟩ := s'
+    split
+    · exact s'.mono _
+    · split
+      · exact s'.mono _
+      · rename_i rv hrv
+        have hm := getRound_mem hrv
+        have hround : rv.round = v.round := getRound_round hrv
+        obtain ⟨i1, i2, p1, p2⟩ := s'.cur rv hm
+        have pos1 : ∀ val ∈ rv.prevotes.vals, 0 ≤ val.power := by rw [← p1.2.2.2]; exact s'.pos
+        have pos2 : ∀ val ∈ rv.precommits.vals, 0 ≤ val.power := by rw [← p2.2.2.2]; exact s'.pos
+        have a1 := VoteSet.addVote_inv (cfg := VoteSet.repaired) v sigok pos1 i1
+        have a2 := VoteSet.addVote_inv (cfg := VoteSet.repaired) v sigok pos2 i2
+        refine ⟨s'.pos, s'.vals, s'.vals0, ?_, fun e he => (s'.old e he).mono _⟩
+        by_cases ht : v.type = 1
+        · simp only [ht, if_true]
+          generalize VoteSet.addVote VoteSet.repaired rv.prevotes v sigok = res at a1 ⊢
+          obtain ⟨vs', o⟩ := res
+          exact setsOK_map (s'.cur.mono _) v.round _ ⟨a1.1, i2.mono _, p1.trans a1.2, p2⟩
+        · simp only [ht, if_false]
+          generalize VoteSet.addVote VoteSet.repaired rv.precommits v sigok = res at a2 ⊢
+          obtain ⟨vs', o⟩ := res
+          exact setsOK_map (s'.cur.mono _) v.round _ ⟨i1.mono _, a2.1, p1, p2.trans a2.2⟩
+
+theorem vsi_setPeerMaj23 {V : List VoteSet.Validator} {hist : VoteSet.Hist} (n : Node) (height round : Int) (type : Nat)
+    (peer : String) (bid : VoteSet.BlockID) (s : VSI V n hist) : VSI V (setPeerMaj23 n height round type peer bid) hist := by
+  unfold setPeerMaj23
+  split
+  · exact s
+  · split
+    · exact s
+    · split
+      · exact s
+      · rename_i rv hrv
+        have hm := getRound_mem hrv
+        obtain ⟨i1, i2, p1, p2⟩ := s.cur rv hm
+        have pos1 : ∀ val ∈ rv.prevotes.vals, 0 ≤ val.power := by rw [← p1.2.2.2]; exact s.pos
+        have pos2 : ∀ val ∈ rv.precommits.vals, 0 ≤ val.power := by rw [← p2.2.2.2]; exact s.pos
+        have a1 := VoteSet.setPeerMaj23_inv (cfg := VoteSet.repaired) peer bid pos1 i1
+        have a2 := VoteSet.setPeerMaj23_inv (cfg := VoteSet.repaired) peer bid pos2 i2
+        refine ⟨s.pos, s.vals, s.vals0, ?_, s.old⟩
+        by_cases ht : type = 1
+        · simp only [ht, if_true]
+          exact setsOK_map s.cur round _ ⟨a1.1, i2, p1.trans a1.2, p2⟩
+        · simp only [ht, if_false]
+          exact setsOK_map s.cur round _ ⟨i1, a2.1, p1, p2.trans a2.2⟩
+
+/-! ### the run invariants together, through every handler -/
+
+/-- every vote in the node's own queue is one it has signed -/
+def QS (n : Node) : Prop := ∀ v ok, Msg.vote v ok ∈ n.queue → v ∈ n.signed ∧ ok = true
+
+structure Full (V : List VoteSet.Validator) (n : Node) (hist : VoteSet.Hist) : Prop where
   qj : QJ n
   a3 : A3Inv n
   past : PastInv n
+  vsi : VSI V n hist
+  qs : QS n
 
-theorem Full.keep {n n' : Node} (f : Full n) (e : Ext n n') (k : Kept n n') (l : Le n n')
-    (hs : n'.signed = n.signed) (hp : n'.past = n.past) : Full n' :=
-  ⟨f.qj.ext e, f.a3.keep e k l hs, f.past.fr (Fr.of_eq k.h hp hs)⟩
+variable {V : List VoteSet.Validator} {hist : VoteSet.Hist}
 
-theorem Full.same {n n' : Node} (f : Full n) (hh : n'.height = n.height) (hr : n'.rounds = n.rounds)
-    (hs : n'.signed = n.signed) (hp : n'.past = n.past) (k : Kept n n') (l : Le n n') : Full n' :=
-  f.keep (Ext.frame hh hr hs) k l hs hp
+theorem Full.mono {n : Node} (x : VoteSet.Hist) (f : Full V n hist) : Full V n (hist ++ x) :=
+  ⟨f.qj, f.a3, f.past, f.vsi.mono x, f.qs⟩
 
-theorem full_emit (n : Node) (e : Emit) (f : Full n) : Full (emit n e) :=
-  ⟨f.qj.ext (ext_emit _ _), a3_emit _ _ f.a3, f.past.fr (fr_emit _ _)⟩
+theorem Full.fr {n n' : Node} (f : Full V n hist) (r : Fr n n') (e : Ext n n') (a : A3Inv n') : Full V n' hist := by
+  refine ⟨f.qj.ext e, a, f.past.fr r, f.vsi.fr r, ?_⟩
+  intro v ok hm
+  rcases r.qv v ok hm with hm | hm
+  · exact ⟨r.signed_sub _ (f.qs v ok hm).1, (f.qs v ok hm).2⟩
+  · exact hm
 
-theorem full_enterNewRound (n : Node) (h r : Int) (f : Full n) : Full (enterNewRound n h r) :=
-  ⟨f.qj.ext (ext_enterNewRound _ _ _), a3_enterNewRound _ _ _ f.a3, f.past.fr (fr_enterNewRound _ _ _)⟩
+theorem Full.same {n n' : Node} (f : Full V n hist) (hh : n'.height = n.height) (hr : n'.rounds = n.rounds)
+    (hs : n'.signed = n.signed) (hp : n'.past = n.past)
+    (hq : ∀ v ok, Msg.vote v ok ∈ n'.queue → Msg.vote v ok ∈ n.queue) (hv : n'.vals = n.vals) (hv0 : n'.vals0 = n.vals0)
+    (k : Kept n n') (l : Le n n') : Full V n' hist :=
+  f.fr (Fr.of_queue hh hp hs hq hr hv hv0) (Ext.frame hh hr hs) (f.a3.keep (Ext.frame hh hr hs) k l hs)
 
-theorem full_enterPrevote (n : Node) (h r : Int) (hw : n.height = h → r ≤ n.round) (f : Full n) :
-    Full (enterPrevote n h r) :=
-  ⟨f.qj.ext (ext_enterPrevote _ _ _), a3_enterPrevote _ _ _ hw f.a3, f.past.fr (fr_enterPrevote _ _ _)⟩
+theorem full_emit (n : Node) (e : Emit) (f : Full V n hist) : Full V (emit n e) hist :=
+  f.fr (fr_emit _ _) (ext_emit _ _) (a3_emit _ _ f.a3)
 
-theorem full_enterPrevoteWait (n : Node) (h r : Int) (f : Full n) : Full (enterPrevoteWait n h r) :=
-  ⟨f.qj.ext (ext_enterPrevoteWait _ _ _), a3_enterPrevoteWait _ _ _ f.a3, f.past.fr (fr_enterPrevoteWait _ _ _)⟩
+theorem full_enterNewRound (n : Node) (h r : Int) (f : Full V n hist) : Full V (enterNewRound n h r) hist :=
+  f.fr (fr_enterNewRound _ _ _) (ext_enterNewRound _ _ _) (a3_enterNewRound _ _ _ f.a3)
 
-theorem full_enterPrecommit (n : Node) (h r : Int) (hw : n.height = h → r ≤ n.round) (f : Full n) :
-    Full (enterPrecommit n h r) :=
-  ⟨f.qj.ext (ext_enterPrecommit _ _ _ hw), a3_enterPrecommit _ _ _ hw f.a3, f.past.fr (fr_enterPrecommit _ _ _)⟩
+theorem full_enterPrevote (n : Node) (h r : Int) (hw : n.height = h → r ≤ n.round) (f : Full V n hist) :
+    Full V (enterPrevote n h r) hist :=
+  f.fr (fr_enterPrevote _ _ _) (ext_enterPrevote _ _ _) (a3_enterPrevote _ _ _ hw f.a3)
 
-theorem full_enterPrecommitWait (n : Node) (h r : Int) (f : Full n) : Full (enterPrecommitWait n h r) :=
-  ⟨f.qj.ext (ext_enterPrecommitWait _ _ _), a3_enterPrecommitWait _ _ _ f.a3, f.past.fr (fr_enterPrecommitWait _ _ _)⟩
+theorem full_enterPrevoteWait (n : Node) (h r : Int) (f : Full V n hist) : Full V (enterPrevoteWait n h r) hist :=
+  f.fr (fr_enterPrevoteWait _ _ _) (ext_enterPrevoteWait _ _ _) (a3_enterPrevoteWait _ _ _ f.a3)
 
-theorem full_setProposal (n : Node) (p : Proposal) (signer : Nat) (bad : Bool) (f : Full n) :
-    Full (setProposal n p signer bad) :=
-  ⟨f.qj.ext (ext_setProposal _ _ _ _), a3_setProposal _ _ _ _ f.a3, f.past.fr (fr_setProposal _ _ _ _)⟩
+theorem full_enterPrecommit (n : Node) (h r : Int) (hw : n.height = h → r ≤ n.round) (f : Full V n hist) :
+    Full V (enterPrecommit n h r) hist :=
+  f.fr (fr_enterPrecommit _ _ _) (ext_enterPrecommit _ _ _ hw) (a3_enterPrecommit _ _ _ hw f.a3)
+
+theorem full_enterPrecommitWait (n : Node) (h r : Int) (f : Full V n hist) : Full V (enterPrecommitWait n h r) hist :=
+  f.fr (fr_enterPrecommitWait _ _ _) (ext_enterPrecommitWait _ _ _) (a3_enterPrecommitWait _ _ _ f.a3)
+
+theorem full_setProposal (n : Node) (p : Proposal) (signer : Nat) (bad : Bool) (f : Full V n hist) :
+    Full V (setProposal n p signer bad) hist :=
+  f.fr (fr_setProposal _ _ _ _) (ext_setProposal _ _ _ _) (a3_setProposal _ _ _ _ f.a3)
 
 /-- what QJ and A3Inv say about the votes of the height the node is in, frozen -/
-theorem Full.freeze {n : Node} (f : Full n) : PastOK n.signed (n.height, n.rounds) := by
+theorem Full.freeze {n : Node} (f : Full V n hist) : PastOK n.signed (n.height, n.rounds) := by
   refine ⟨?_, ?_⟩
   · intro v hv hh ht hn
     exact (f.qj v hv).2 ht hh hn
@@ -276,7 +519,7 @@ theorem Full.freeze {n : Node} (f : Full n) : PastOK n.signed (n.height, n.round
     exact f.a3.g3 i j hij hj ⟨h1, h2, h3⟩ h4 h5 h6 h7
 
 /-- the moment the height ends -/
-theorem PastInv.commit {n n' : Node} (f : Full n) (hh : n'.height = n.height + 1)
+theorem PastInv.commit {n n' : Node} (f : Full V n hist) (hh : n'.height = n.height + 1)
     (hp : n'.past = n.past ++ [(n.height, n.rounds)]) (hs : n'.signed = n.signed) : PastInv n' := by
   intro e he
   rw [hp] at he
@@ -288,27 +531,51 @@ theorem PastInv.commit {n n' : Node} (f : Full n) (hh : n'.height = n.height + 1
     subst he
     exact ⟨by show n.height < n.height + 1; omega, f.freeze⟩
 
-theorem full_finalizeCommit (n : Node) (h : Int) (f : Full n) : Full (finalizeCommit n h) := by
-  refine ⟨f.qj.ext (ext_finalizeCommit _ _), a3_finalizeCommit _ _ f.a3, ?_⟩
+theorem full_finalizeCommit (n : Node) (h : Int) (f : Full V n hist) : Full V (finalizeCommit n h) hist := by
+  have hq := f.qj.ext (ext_finalizeCommit n h)
+  have ha := a3_finalizeCommit n h f.a3
+  revert hq ha
   unfold finalizeCommit
   split
-  · exact f.past
+  · intro _ _; exact f
   · rename_i hg
     split
     · split
-      · exact f.past.fr (fr_emit _ _)
+      · intro _ _; exact full_emit _ _ f
       · split
-        · exact f.past.fr (fr_emit _ _)
+        · intro _ _; exact full_emit _ _ f
         · split
-          · exact f.past.fr (fr_emit _ _)
+          · intro _ _; exact full_emit _ _ f
           · split
-            · exact f.past.fr (fr_emit _ _)
-            · have hh : n.height = h := Classical.not_not.mp (fun x => hg (Or.inl x))
+            · intro _ _; exact full_emit _ _ f
+            · intro hq ha
+              have hh : n.height = h := Classical.not_not.mp (fun x => hg (Or.inl x))
               subst hh
-              exact PastInv.commit (full_emit n _ f) rfl rfl rfl
-    · exact f.past.fr (fr_emit _ _)
+              have f1 := full_emit n (.commit n.height (match n.proposalBlock with | some b => b | none => [])) f
+              refine ⟨hq, ha, PastInv.commit (full_emit n _ f) rfl rfl rfl, ?_, ?_⟩
+              · refine ⟨f.vsi.pos, ?_, ?_, ?_, ?_⟩
+                · show vsVals (ValSet.incrementAccum ValSet.repaired n.vals0 1) = V
+                  rw [vsVals_incrementAccum]; exact f.vsi.vals0
+                · show vsVals (ValSet.incrementAccum ValSet.repaired n.vals0 1) = V
+                  rw [vsVals_incrementAccum]; exact f.vsi.vals0
+                · intro rv hm
+                  simp only [emit, List.mem_singleton] at hm
+                  subst hm
+                  refine setsOK_fresh hist _ _ f.vsi.pos ⟨0, ?_⟩
+                  simp only [newRoundVotes, emit]
+                  rw [vsVals_incrementAccum, f.vsi.vals0]
+                · intro e he
+                  simp only [emit] at he
+                  rcases List.mem_append.mp he with he | he
+                  · exact f.vsi.old e he
+                  · simp only [List.mem_singleton] at he
+                    subst he
+                    exact f.vsi.cur
+              · intro v ok hm
+                exact f.qs v ok hm
+    · intro _ _; exact full_emit _ _ f
 
-theorem full_tryFinalizeCommit (n : Node) (h : Int) (f : Full n) : Full (tryFinalizeCommit n h) := by
+theorem full_tryFinalizeCommit (n : Node) (h : Int) (f : Full V n hist) : Full V (tryFinalizeCommit n h) hist := by
   unfold tryFinalizeCommit
   split
   · exact full_emit _ _ f
@@ -320,7 +587,7 @@ theorem full_tryFinalizeCommit (n : Node) (h : Int) (f : Full n) : Full (tryFina
         · exact f
         · exact full_finalizeCommit _ _ f
 
-theorem full_enterCommit (n : Node) (h cr : Int) (f : Full n) : Full (enterCommit n h cr) := by
+theorem full_enterCommit (n : Node) (h cr : Int) (f : Full V n hist) : Full V (enterCommit n h cr) hist := by
   unfold enterCommit
   split
   · exact f
@@ -328,24 +595,24 @@ theorem full_enterCommit (n : Node) (h cr : Int) (f : Full n) : Full (enterCommi
     split
     · exact full_emit _ _ f
     · extract_lets n1 n2 n3
-      have i1 : Full n1 := by
+      have i1 : Full V n1 hist := by
         unfold n1
         split
-        · exact f.same rfl rfl rfl rfl ⟨rfl, rfl, rfl⟩ (Le.of_same ⟨rfl, rfl, rfl⟩)
+        · exact f.same rfl rfl rfl rfl (fun _ _ h => h) rfl rfl ⟨rfl, rfl, rfl⟩ (Le.of_same ⟨rfl, rfl, rfl⟩)
         · exact f
       have s1 : SameHRS n n1 := by
         unfold n1
         split <;> exact ⟨rfl, rfl, rfl⟩
-      have i2 : Full n2 := by
+      have i2 : Full V n2 hist := by
         unfold n2
         split
-        · exact i1.same rfl rfl rfl rfl ⟨rfl, rfl, rfl⟩ (Le.of_same ⟨rfl, rfl, rfl⟩)
+        · exact i1.same rfl rfl rfl rfl (fun _ _ h => h) rfl rfl ⟨rfl, rfl, rfl⟩ (Le.of_same ⟨rfl, rfl, rfl⟩)
         · exact i1
       have s2 : SameHRS n1 n2 := by
         unfold n2
         split <;> exact ⟨rfl, rfl, rfl⟩
-      have i3 : Full n3 := by
-        refine i2.same rfl rfl rfl rfl ⟨rfl, rfl, rfl⟩ ?_
+      have i3 : Full V n3 hist := by
+        refine i2.same rfl rfl rfl rfl (fun _ _ h => h) rfl rfl ⟨rfl, rfl, rfl⟩ ?_
         apply Le.enter
         · rfl
         · exact Int.le_refl _
@@ -356,8 +623,8 @@ theorem full_enterCommit (n : Node) (h cr : Int) (f : Full n) : Full (enterCommi
           exact Nat.le_of_lt (step_lt_of_not_le this)
       exact full_tryFinalizeCommit _ _ i3
 
-theorem full_addParts (n : Node) (height : Int) (block : Name) (own : Bool) (f : Full n) :
-    Full (addParts n height block own) := by
+theorem full_addParts (n : Node) (height : Int) (block : Name) (own : Bool) (f : Full V n hist) :
+    Full V (addParts n height block own) hist := by
   unfold addParts
   split
   · exact f
@@ -368,51 +635,67 @@ theorem full_addParts (n : Node) (height : Int) (block : Name) (own : Bool) (f :
       · split
         · exact f
         · extract_lets m
-          have im : Full m := f.same rfl rfl rfl rfl ⟨rfl, rfl, rfl⟩ (Le.of_same ⟨rfl, rfl, rfl⟩)
+          have im : Full V m hist :=
+            f.same rfl rfl rfl rfl (fun _ _ h => h) rfl rfl ⟨rfl, rfl, rfl⟩ (Le.of_same ⟨rfl, rfl, rfl⟩)
           split
           · exact full_enterPrevote m height m.round (fun _ => Int.le_refl _) im
           · split
             · exact full_tryFinalizeCommit _ _ im
             · exact im
 
-theorem full_addVote (n : Node) (v : VoteSet.Vote) (sigok : Bool) (peer : String) (f : Full n) :
-    Full (addVote n v sigok peer) := by
+theorem full_hvsAddVote (n : Node) (v : VoteSet.Vote) (sigok : Bool) (peer : String) (f : Full V n hist) :
+    Full V (hvsAddVote n v sigok peer).1 (hist ++ [(v, sigok)]) := by
+  have hp := past_hvsAddVote n v sigok peer
+  have hs := signed_hvsAddVote n v sigok peer
+  have hh := (hrs_hvsAddVote n v sigok peer).h
+  refine ⟨f.qj.ext (ext_hvsAddVote _ _ _ _),
+    f.a3.keep (ext_hvsAddVote _ _ _ _) (kept_hvsAddVote _ _ _ _) (Le.of_same (hrs_hvsAddVote _ _ _ _)) hs,
+    ?_, vsi_hvsAddVote n v sigok peer f.vsi, ?_⟩
+  · intro e he
+    rw [hp.1] at he
+    rw [hs, hh]
+    exact f.past e he
+  · intro w ok hm
+    rw [hp.2.1] at hm
+    rw [hs]
+    exact f.qs w ok hm
+
+theorem full_addVote (n : Node) (v : VoteSet.Vote) (sigok : Bool) (peer : String) (f : Full V n hist) :
+    Full V (addVote n v sigok peer) (hist ++ [(v, sigok)]) := by
   unfold addVote
   split
   · split
-    · exact f
+    · exact f.mono _
     · split
       · split
-        · exact f
-        · exact full_emit _ _ f
+        · exact f.mono _
+        · exact full_emit _ _ (f.mono _)
       · split
         dsimp only
         split
         · apply full_enterNewRound
-          exact f.same rfl rfl rfl rfl ⟨rfl, rfl, rfl⟩ (Le.of_same ⟨rfl, rfl, rfl⟩)
-        · exact f.same rfl rfl rfl rfl ⟨rfl, rfl, rfl⟩ (Le.of_same ⟨rfl, rfl, rfl⟩)
+          exact (f.mono _).same rfl rfl rfl rfl (fun _ _ h => h) rfl rfl ⟨rfl, rfl, rfl⟩ (Le.of_same ⟨rfl, rfl, rfl⟩)
+        · exact (f.mono _).same rfl rfl rfl rfl (fun _ _ h => h) rfl rfl ⟨rfl, rfl, rfl⟩ (Le.of_same ⟨rfl, rfl, rfl⟩)
   · split
-    · have i0 : Full (hvsAddVote n v sigok peer).1 :=
-        f.keep (ext_hvsAddVote _ _ _ _) (kept_hvsAddVote _ _ _ _) (Le.of_same (hrs_hvsAddVote _ _ _ _))
-          (signed_hvsAddVote _ _ _ _) (fr_hvsAddVote _ _ _ _).past
+    · have i0 := full_hvsAddVote n v sigok peer f
       generalize hvsAddVote n v sigok peer = res at i0 ⊢
       obtain ⟨m, o⟩ := res
       dsimp only at i0 ⊢
       split
       · exact i0
       · split
-        · have i1 : Full (if m.lockedBlock.isSome = true ∧ m.lockedRound < v.round ∧ v.round ≤ m.round then
+        · have i1 : Full V (if m.lockedBlock.isSome = true ∧ m.lockedRound < v.round ∧ v.round ≤ m.round then
               match maj23 (prevotes m v.round) with
               | some b => if (!hashesTo m.lockedBlock b.hash) = true then unlock m else m
               | none => m
-            else m) := by
+            else m) (hist ++ [(v, sigok)]) := by
             split
             · rename_i hc
               split
               · rename_i b hb
                 split
                 · rename_i hne
-                  exact ⟨i0.qj.ext (ext_unlock _), a3_unlock_on_polka m v.round b hb hc hne i0.a3, i0.past.fr (fr_unlock _)⟩
+                  exact i0.fr (fr_unlock _) (ext_unlock _) (a3_unlock_on_polka m v.round b hb hc hne i0.a3)
                 · exact i0
               · exact i0
             · exact i0
@@ -444,10 +727,10 @@ theorem full_addVote (n : Node) (v : VoteSet.Vote) (sigok : Bool) (peer : String
             · exact full_enterPrecommitWait _ _ _
                 (full_enterPrecommit _ _ _ (enterNewRound_hr m n.height v.round) (full_enterNewRound _ _ _ i0))
             · exact i0
-    · exact f
+    · exact f.mono _
 
-theorem full_handleTimeout (n : Node) (h r : Int) (s : Step) (hw : h = n.height → r ≤ n.round) (f : Full n) :
-    Full (handleTimeout n h r s) := by
+theorem full_handleTimeout (n : Node) (h r : Int) (s : Step) (hw : h = n.height → r ≤ n.round) (f : Full V n hist) :
+    Full V (handleTimeout n h r s) hist := by
   unfold handleTimeout
   split
   · exact f
@@ -458,31 +741,59 @@ theorem full_handleTimeout (n : Node) (h r : Int) (s : Step) (hw : h = n.height 
     · exact full_enterNewRound _ _ _ f
     · exact full_emit _ _ f
 
-theorem full_handleMsg (n : Node) (m : Msg) (peer : String) (f : Full n) : Full (handleMsg n m peer) := by
+/-- the votes an input offers to the vote sets, with their signature-oracle bit -/
+def offeredMsg : Msg → VoteSet.Hist
+  | .vote v ok => [(v, ok)]
+  | _ => []
+
+def offered (n : Node) : In → VoteSet.Hist
+  | .msg m _ => offeredMsg m
+  | .own => match n.queue with
+            | m :: _ => offeredMsg m
+            | [] => []
+  | _ => []
+
+theorem full_handleMsg (n : Node) (m : Msg) (peer : String) (f : Full V n hist) :
+    Full V (handleMsg n m peer) (hist ++ offeredMsg m) := by
   unfold handleMsg
   split
-  · exact full_setProposal _ _ _ _ f
-  · exact full_addParts _ _ _ _ f
+  · exact (full_setProposal _ _ _ _ f).mono _
+  · exact (full_addParts _ _ _ _ f).mono _
   · exact full_addVote _ _ _ _ f
 
-theorem full_stepIn (n : Node) (inp : In) (f : Full n) (hw : WellTimed n inp) : Full (stepIn n inp) := by
+theorem full_stepIn (n : Node) (inp : In) (f : Full V n hist) (hw : WellTimed n inp) :
+    Full V (stepIn n inp) (hist ++ offered n inp) := by
   cases inp with
   | msg m peer => exact full_handleMsg _ _ _ f
   | own =>
-    show Full (match n.queue with | [] => n | m :: rest => handleMsg { n with queue := rest } m "")
-    split
-    · exact f
-    · rename_i m rest _
-      have i' : Full { n with queue := rest } := f.same rfl rfl rfl rfl ⟨rfl, rfl, rfl⟩ (Le.of_same ⟨rfl, rfl, rfl⟩)
+    show Full V (match n.queue with | [] => n | m :: rest => handleMsg { n with queue := rest } m "")
+      (hist ++ (match n.queue with | m :: _ => offeredMsg m | [] => []))
+    cases hq : n.queue with
+    | nil => exact f.mono _
+    | cons m rest =>
+      have i' : Full V { n with queue := rest } hist :=
+        f.same rfl rfl rfl rfl (fun v ok h => by rw [hq]; exact List.mem_cons_of_mem _ h) rfl rfl ⟨rfl, rfl, rfl⟩
+          (Le.of_same ⟨rfl, rfl, rfl⟩)
       exact full_handleMsg _ _ _ i'
-  | timeout h r s => exact full_handleTimeout _ _ _ _ hw f
+  | timeout h r s => exact (full_handleTimeout _ _ _ _ hw f).mono _
   | maj23 h r t peer bid =>
-    exact f.keep (ext_setPeerMaj23 _ _ _ _ _ _) (kept_setPeerMaj23 _ _ _ _ _ _)
-      (Le.of_same (hrs_setPeerMaj23 _ _ _ _ _ _)) (signed_setPeerMaj23 _ _ _ _ _ _) (fr_setPeerMaj23 _ _ _ _ _ _).past
-
-theorem full_run (ins : List In) : ∀ n : Node, Full n → RunOK n ins → Full (ins.foldl stepIn n) := by
-  induction ins with
-  | nil => intro n i _; exact i
-  | cons x rest ih => intro n i hr; exact ih _ (full_stepIn n x i hr.1) hr.2
+    have hp := past_setPeerMaj23 n h r t peer bid
+    have hs := signed_setPeerMaj23 n h r t peer bid
+    have hh := (hrs_setPeerMaj23 n h r t peer bid).h
+    refine Full.mono _ ⟨f.qj.ext (ext_setPeerMaj23 _ _ _ _ _ _),
+      f.a3.keep (ext_setPeerMaj23 _ _ _ _ _ _) (kept_setPeerMaj23 _ _ _ _ _ _)
+        (Le.of_same (hrs_setPeerMaj23 _ _ _ _ _ _)) hs, ?_, vsi_setPeerMaj23 n h r t peer bid f.vsi, ?_⟩
+    · intro e he
+      show e.1 < (setPeerMaj23 n h r t peer bid).height ∧ PastOK (setPeerMaj23 n h r t peer bid).signed e
+      have he' : e ∈ (setPeerMaj23 n h r t peer bid).past := he
+      rw [hp.1] at he'
+      rw [hs, hh]
+      exact f.past e he'
+    · intro w ok hm
+      have hm' : Msg.vote w ok ∈ (setPeerMaj23 n h r t peer bid).queue := hm
+      rw [hp.2.1] at hm'
+      show w ∈ (setPeerMaj23 n h r t peer bid).signed ∧ ok = true
+      rw [hs]
+      exact f.qs w ok hm'
 
 end AnnVerif.Node
